@@ -6,6 +6,7 @@
 package main
 
 import (
+	"bufio"
 	"encoding/base64"
 	"encoding/json"
 	"flag"
@@ -171,6 +172,19 @@ func (q ReqSpec) raw() accessrig.RawReq {
 	return r
 }
 
+func swapCase(s string) string {
+	bs := []byte(s)
+	for i, c := range bs {
+		switch {
+		case c >= 'a' && c <= 'z':
+			bs[i] = c - 32
+		case c >= 'A' && c <= 'Z':
+			bs[i] = c + 32
+		}
+	}
+	return string(bs)
+}
+
 func b64(s string) string { return base64.StdEncoding.EncodeToString([]byte(s)) }
 
 type credVariant struct {
@@ -219,6 +233,11 @@ func credVariants() []credVariant {
 		{"swapped", [][2]string{pa("Basic " + b64(authPass+":"+authUser))}},
 		{"colon-shift", [][2]string{pa("Basic " + b64("user:pa"+":ss"))}}, // same bytes as exact
 		{"user-with-colon", [][2]string{pa("Basic " + b64("user:pa:"+"ss"))}},
+		{"value-upper", [][2]string{pa(strings.ToUpper(good))}},
+		{"value-lower", [][2]string{pa(strings.ToLower(good))}},
+		{"token-upper", [][2]string{pa("Basic " + strings.ToUpper(enc))}},
+		{"token-lower", [][2]string{pa("Basic " + strings.ToLower(enc))}},
+		{"token-swapcase", [][2]string{pa("Basic " + swapCase(enc))}},
 		{"pass-trailing-nul", [][2]string{pa("Basic " + b64(authUser+":"+authPass+"\x00"))}},
 		{"pass-trailing-nuls", [][2]string{pa("Basic " + b64(authUser+":"+authPass+"\x00\x00\x00"))}},
 		{"user-trailing-nul", [][2]string{pa("Basic " + b64(authUser+"\x00:"+authPass))}},
@@ -367,8 +386,8 @@ func coqConfig(s Spec, denied []string, aliases []string, idnaTable map[string]s
 	if s.DenyRules != nil {
 		deny = fmt.Sprintf("(Some (fun h => existsb (str_eqb h) %s))", coqfmt.StrList(denied))
 	}
-	return fmt.Sprintf("Definition %s : config := {| c_name := %s; c_timeframe := %s; c_basic := %s; c_deny_localhost := %s; c_deny := %s; c_aliases := %s; c_mitm := %s; c_idna := %s |}.",
-		cfgName(s), coqfmt.Str(proxyName), coqTF(s.TimeFrame), basic, coqfmt.Bool(s.DenyLocal), deny, coqfmt.StrList(aliases), coqfmt.Bool(s.MITM), coqIDNA(idnaTable))
+	return fmt.Sprintf("Definition %s : config := {| c_name := %s; c_timeframe := %s; c_basic := %s; c_deny_localhost := %s; c_deny := %s; c_aliases := %s; c_mitm := %s; c_idna := %s; c_handler := %s |}.",
+		cfgName(s), coqfmt.Str(proxyName), coqTF(s.TimeFrame), basic, coqfmt.Bool(s.DenyLocal), deny, coqfmt.StrList(aliases), coqfmt.Bool(s.MITM), coqIDNA(idnaTable), coqfmt.Bool(s.Handler))
 }
 
 type Case struct {
@@ -423,11 +442,15 @@ func coqCase(s Spec, clock [3]int, raw accessrig.RawReq, o accessrig.Obs, target
 		return "", false
 	}
 	reached := len(o.Msgs)
+	rawHost := req.URL.Host
+	if r0, err := http.ReadRequest(bufio.NewReader(strings.NewReader(raw.Raw))); err == nil {
+		rawHost = r0.URL.Host // as parsed, before any completion from the Host field
+	}
 	return fmt.Sprintf("{| x_cfg := %s; x_env := {| now_day := %d; now_hour := %d |}; "+
-		"x_req := {| r_method := %s; r_host := %s; r_hdr := %s |}; "+
+		"x_req := {| r_method := %s; r_host := %s; r_hdr := %s |}; x_raw_host := %s; "+
 		"x_obs := {| o_status := %d; o_hdr := %s; o_dials := %s; o_reached := %d; o_from_peer := %s; o_targets := %s; o_target_is_local := %s |} |}",
 		cfgName(s), clock[0], clock[1],
-		coqfmt.Str(req.Method), coqfmt.Str(req.URL.Host), coqHeader(req.Header),
+		coqfmt.Str(req.Method), coqfmt.Str(req.URL.Host), coqHeader(req.Header), coqfmt.Str(rawHost),
 		o.Status, coqHeader(o.Header), coqfmt.StrList(o.Dials), reached, coqfmt.Bool(o.FromPeer != ""),
 		coqfmt.StrList(targets), coqfmt.Bool(truth)), true
 }
@@ -679,9 +702,21 @@ func allSpecs(tier string) []Spec {
 	// real dialling: what a loopback / unspecified spelling really reaches
 	out = append(out, Spec{ID: id, DenyLocal: true, RealDial: true})
 	id++
-	// the http.Handler implementation (TestingHTTPHandler)
+	// the http.Handler implementation (TestingHTTPHandler): every control, origin-form requests included
 	out = append(out, Spec{ID: id, Auth: true, DenyLocal: true, DenyRules: denyRules, Handler: true})
 	id++
+	out = append(out, Spec{ID: id, DenyLocal: true, DenyRules: denyRules, TimeFrame: timeFrame, Handler: true})
+	id++
+	out = append(out, Spec{ID: id, DenyLocal: true, Handler: true, Upstream: true})
+	id++
+	// degenerate time frames: an entry with an empty interval never matches; a list made only of such
+	// entries is still a configured list (it refuses everything), a mixed list behaves like its other entries
+	for _, tf := range [][]TF{{{1, 0, 0}}, {{2, 12, 12}, {6, 24, 24}}, {{2, 0, 0}, {2, 9, 17}}, {{2, 16, 16}, {2, 17, 17}}} {
+		out = append(out, Spec{ID: id, TimeFrame: tf})
+		id++
+		out = append(out, Spec{ID: id, Auth: true, DenyLocal: true, TimeFrame: tf, Upstream: true})
+		id++
+	}
 	// MITM: every CONNECT that passes is answered 200 without dialling, the requests inside the TLS session
 	// go through the same chain
 	out = append(out, Spec{ID: id, Auth: true, DenyLocal: true, DenyRules: denyRules, MITM: true})
@@ -710,11 +745,6 @@ func genRequests(r *rng.R, s Spec, aliases []string, budget int, originPort stri
 			if method == "CONNECT" && port == "" {
 				host = hv.host + ":443"
 			}
-		}
-		if s.Handler && form == "origin" {
-			// the http.Handler implementation (testing only) does not complete URL.Host from the Host header:
-			// origin-form requests end in "no Host in request URL" (500, nothing dialled) — outside the model
-			form = "absolute"
 		}
 		return ReqSpec{Method: method, Host: host, Form: form, Version: version, Headers: cv.lines, CredTag: cv.tag, HostTag: hv.tag}
 	}
@@ -933,6 +963,33 @@ func main() {
 					}
 					continue
 				}
+				if s.Auth && !s.RealDial {
+					// histories: an ACCEPTED request first, then wrong credentials — among them the right header value
+					// with its case folded — on the same connection, and each again on a connection of its own
+					cv := map[string]credVariant{}
+					for _, v := range credVariants() {
+						cv[v.tag] = v
+					}
+					hq := func(method, host, tag string) ReqSpec {
+						form := "absolute"
+						if method == "CONNECT" {
+							form = "authority"
+						}
+						return ReqSpec{Method: method, Host: host, Form: form, Version: "1.1", Headers: cv[tag].lines, CredTag: tag, HostTag: "plain"}
+					}
+					hist := []ReqSpec{hq("GET", "example.test", "exact"), hq("GET", "example.test", "value-upper"), hq("GET", "example.test", "value-lower"),
+						hq("CONNECT", "example.test:443", "token-upper")}
+					hj := job{spec: s, clock: c}
+					for _, q := range hist {
+						hj.session = append(hj.session, q.raw())
+						hj.reqs = append(hj.reqs, q)
+					}
+					jobs = append(jobs, hj)
+					for _, q := range []ReqSpec{hq("CONNECT", "example.test:443", "value-lower"), hq("GET", "www.example.test:8080", "token-swapcase"),
+						hq("POST", "example.test", "value-upper"), hq("GET", "example.test", "token-lower")} {
+						jobs = append(jobs, job{spec: s, clock: c, session: []accessrig.RawReq{q.raw()}, reqs: []ReqSpec{q}})
+					}
+				}
 				// sessions of 1..4 requests on one connection
 				for i := 0; i < len(reqs); {
 					n := 1 + r.Intn(4)
@@ -966,6 +1023,8 @@ func main() {
 			cur = nil
 		}
 	}
+	var firstAcc []accessrig.RawReq // first plain session of this proxy instance with an accepted request (right credentials)
+	var firstAccClock [3]int
 	var curClock, prevClock [3]int
 	var curFirst, prevFirst []accessrig.RawReq // first plain session run at the current / previous clock value
 	for _, j := range jobs {
@@ -987,6 +1046,7 @@ func main() {
 				denied[j.spec.ID] = map[string]bool{}
 			}
 			curClock, prevClock, curFirst, prevFirst = j.clock, j.clock, nil, nil
+			firstAcc = nil
 		}
 		if j.clock != curClock {
 			prevClock, prevFirst = curClock, curFirst
@@ -1058,6 +1118,19 @@ func main() {
 			if prevFirst != nil && prevClock != j.clock {
 				pc := prevClock
 				c.PrevClock, c.PrevSession = &pc, prevFirst
+			}
+			if j.spec.Auth && firstAcc != nil &&
+				(strings.HasPrefix(reqSpecs[i].CredTag, "value-") || strings.HasPrefix(reqSpecs[i].CredTag, "token-")) {
+				// what matters for these: the proxy has accepted the right header value before
+				fc := firstAccClock
+				c.PrevClock, c.PrevSession = &fc, firstAcc
+			}
+			if firstAcc == nil && j.connect == nil && j.spec.Auth && o.FromPeer != "" && reqSpecs[i].CredTag == "exact" {
+				firstAcc, firstAccClock = j.session, j.clock
+			}
+			if firstAcc == nil && j.connect != nil && i == 0 && j.spec.Auth && o.Status == 200 && reqSpecs[i].CredTag == "exact" {
+				// MITM configuration: the first accepted request is a CONNECT
+				firstAcc, firstAccClock = []accessrig.RawReq{*j.connect}, j.clock
 			}
 			if j.connect != nil {
 				c.Connect, c.Index = j.connect, i-1
